@@ -5,6 +5,7 @@ import vlib
 from vlib import VERIF
 PID = "C20"
 SPEC = os.path.join(VERIF, "spec", "func")
+RUNCFG = ".EnvClamp.run.%d.cfg" % os.getpid()   # (per process: several runs of this check may overlap)
 
 
 def hexs(s):
@@ -181,7 +182,7 @@ def run(tier, seed):
             cfgtxt = f.read()
         envcfg = os.path.join(sdir, "EnvClamp.cfg")
         open(envcfg, "w").write(re.sub(r"NCores = \d+", "NCores = " + ncores, cfgtxt))
-        shutil.copy(envcfg, os.path.join(SPEC, ".EnvClamp.run.cfg"))
+        shutil.copy(envcfg, os.path.join(SPEC, RUNCFG))
         # 1. numeric parser
         ins = atoi_inputs(quick, rng)
         fin, out = os.path.join(sdir, "atoi.in"), os.path.join(sdir, "atoi.ndjson")
@@ -210,7 +211,7 @@ def run(tier, seed):
         if r.returncode != 0:
             chk.violation("env:crash", "environment parsing crashed (rc=%d): %s" % (r.returncode, r.stderr[-300:]), replay_content=r.stderr)
         else:
-            oracle(chk, "env", "EnvClamp.tla", ".EnvClamp.run.cfg", out, "environment setting not clamped / rounded / defaulted as documented", "env")
+            oracle(chk, "env", "EnvClamp.tla", RUNCFG, out, "environment setting not clamped / rounded / defaulted as documented", "env")
             chk.distinct.update(lines)
         # 3b. settings whose limits depend on other settings, through ABTD_env_init()
         lines = envg_lines(quick, rng)
@@ -253,7 +254,7 @@ def run(tier, seed):
     finally:
         shutil.rmtree(sdir, ignore_errors=True)
         try:
-            os.remove(os.path.join(SPEC, ".EnvClamp.run.cfg"))
+            os.remove(os.path.join(SPEC, RUNCFG))
         except OSError:
             pass
     chk.assumptions += ["the TLA+ definitions in spec/func are the reference semantics (transcribed from the documented grammar / README.envvar)",
